@@ -38,6 +38,14 @@ const (
 	evSub
 	evLink
 	evBarrier
+	// evUnlink tears the current link of an edge down (both directions of its
+	// stream are closed: the sessions on both ends end).
+	evUnlink
+	// evCloseOld closes the superseded links of an edge (see evLink on an edge
+	// that is still linked: make-before-break).
+	evCloseOld
+	// evRelease releases subscription Sub.
+	evRelease
 )
 
 type event struct {
@@ -46,6 +54,9 @@ type event struct {
 	Sub    int  // evSub: index into cfg.Subs
 	Edge   int  // evLink: index into cfg.G.edges
 	AFirst bool // evLink
+	// SameUUID (evLink on an edge that was linked before): re-establish under
+	// the link id the edge had before instead of a fresh one.
+	SameUUID bool
 }
 
 func (e event) String() string {
@@ -55,7 +66,16 @@ func (e event) String() string {
 	case evSub:
 		return fmt.Sprintf("sub#%d", e.Sub)
 	case evLink:
+		if e.SameUUID {
+			return fmt.Sprintf("link#%d/%v/same-id", e.Edge, e.AFirst)
+		}
 		return fmt.Sprintf("link#%d/%v", e.Edge, e.AFirst)
+	case evUnlink:
+		return fmt.Sprintf("unlink#%d", e.Edge)
+	case evCloseOld:
+		return fmt.Sprintf("close-old#%d", e.Edge)
+	case evRelease:
+		return fmt.Sprintf("release#%d", e.Sub)
 	}
 	return "barrier"
 }
@@ -93,6 +113,10 @@ type roundSpec struct {
 	// OldEnd (kind "relinkstall", round 0): how the stalled old stream of edge 0
 	// ends after it has been replaced: "unstall" or "close".
 	OldEnd string
+	// During (kind "churn"): link events applied from their own goroutine while
+	// the publishes of the round are being issued. They leave every edge linked
+	// again; the publishes of such a round need not be delivered.
+	During []event
 }
 
 type c28cfg struct {
@@ -114,6 +138,9 @@ func (c *c28cfg) desc() string {
 	}
 	for i, r := range c.Rounds {
 		fmt.Fprintf(&sb, " round%d{ev=%v conc=%v", i, r.Events, r.Concurrent)
+		if len(r.During) > 0 {
+			fmt.Fprintf(&sb, " during=%v", r.During)
+		}
 		if len(r.Gates) > 0 {
 			fmt.Fprintf(&sb, " gates=%v qb=%v", r.Gates, r.QuiesceBetween)
 		}
@@ -651,6 +678,7 @@ func genC28RelinkStall(rng *rand.Rand, idx int, yield bool) *c28cfg {
 }
 
 type subState struct {
+	idx      int // index into cfg.Subs
 	spec     subSpec
 	h        pubsub.Subscription
 	handlers []int
@@ -671,9 +699,11 @@ type c28run struct {
 	// several links with different link ids between the same pair of nodes)
 	dup  map[int]*g9mesh.Duplex
 	uuid map[int]uint64
-	nh   int
-	hch  map[int]string // handler id -> channel
-	hnd  map[int]int    // handler id -> node
+	// old: superseded links of an edge that are still up (make-before-break)
+	old map[int][]*g9mesh.Duplex
+	nh  int
+	hch map[int]string // handler id -> channel
+	hnd map[int]int    // handler id -> node
 	// foreign identities: disjoint from the link identities of the mesh
 	foreign []*keys.Identity
 }
@@ -728,7 +758,7 @@ func (x *c28run) apply(e event) bool {
 			x.r.Inconclusive("AddSubscription failed: " + err.Error())
 			return false
 		}
-		st := &subState{spec: sp, h: h}
+		st := &subState{idx: e.Sub, spec: sp, h: h}
 		for k := 0; k < sp.Handlers; k++ {
 			x.nh++
 			id := x.nh
@@ -740,10 +770,45 @@ func (x *c28run) apply(e event) bool {
 		x.subs = append(x.subs, st)
 	case evLink:
 		ed := x.c.G.edges[e.Edge]
-		u := x.m.NextUUID()
+		u, had := x.uuid[e.Edge]
+		if had {
+			x.r.Count("links_reestablished", 1)
+		}
+		if !had || !e.SameUUID {
+			u = x.m.NextUUID()
+			if had {
+				x.r.Count("links_reestablished_under_new_link_id", 1)
+			}
+		}
+		if cur := x.dup[e.Edge]; cur != nil && had && !e.SameUUID {
+			// the edge is still linked: the new link comes up next to the old one
+			x.old[e.Edge] = append(x.old[e.Edge], cur)
+			x.r.Count("links_reestablished_before_old_link_lost", 1)
+		}
 		x.uuid[e.Edge] = u
 		x.dup[e.Edge] = x.m.Link(ed[0], ed[1], u, e.AFirst)
 		x.r.Count("links_established", 1)
+	case evUnlink:
+		if d := x.dup[e.Edge]; d != nil {
+			d.Close()
+			delete(x.dup, e.Edge)
+			x.r.Count("links_torn_down", 1)
+		}
+	case evCloseOld:
+		for _, d := range x.old[e.Edge] {
+			d.Close()
+			x.r.Count("links_torn_down", 1)
+		}
+		delete(x.old, e.Edge)
+	case evRelease:
+		for i, st := range x.subs {
+			if st.idx == e.Sub {
+				st.h.Release()
+				x.subs = append(x.subs[:i:i], x.subs[i+1:]...)
+				x.r.Count("subscriptions_released", 1)
+				break
+			}
+		}
 	case evBarrier:
 		return x.quiesce("barrier")
 	}
@@ -956,6 +1021,20 @@ func (x *c28run) publish(ri int, rs roundSpec, relinkDuring bool) (recs []pubRec
 			x.r.Count("stream_replacements", 1)
 		})
 	}
+	if len(rs.During) > 0 {
+		wg.Add(1)
+		x.m.Go(func() {
+			defer wg.Done()
+			for i := 0; i < 3; i++ {
+				runtime.Gosched()
+			}
+			for _, e := range rs.During {
+				x.apply(e)
+				runtime.Gosched()
+			}
+			x.r.Count("rounds_with_link_churn_during_publishes", 1)
+		})
+	}
 	return x.publishGated(rs, recs, &wg, one)
 }
 
@@ -1166,7 +1245,7 @@ func runC28(r *vf.Run, env *g9mesh.Env, pool []*keys.Identity, c *c28cfg, jr *jo
 	}
 	defer m.Close()
 	m.Adopt()
-	x := &c28run{r: r, c: c, m: m, dup: map[int]*g9mesh.Duplex{}, uuid: map[int]uint64{}, hch: map[int]string{}, hnd: map[int]int{}, foreign: foreign}
+	x := &c28run{r: r, c: c, m: m, dup: map[int]*g9mesh.Duplex{}, uuid: map[int]uint64{}, old: map[int][]*g9mesh.Duplex{}, hch: map[int]string{}, hnd: map[int]int{}, foreign: foreign}
 	nontrivial := false
 	for ri, rs := range c.Rounds {
 		for _, e := range rs.Events {
@@ -1179,7 +1258,8 @@ func runC28(r *vf.Run, env *g9mesh.Env, pool []*keys.Identity, c *c28cfg, jr *jo
 			r.Case(c.desc(), false)
 			return
 		}
-		if !x.checkViews() {
+		if !x.checkViews() && c.Kind != "churn" && c.Kind != "lifecycle" {
+			// (churn / lifecycle configurations go on: delivery is judged as well)
 			r.Case(c.desc(), false)
 			return
 		}
@@ -1199,7 +1279,7 @@ func runC28(r *vf.Run, env *g9mesh.Env, pool []*keys.Identity, c *c28cfg, jr *jo
 			r.Case(c.desc(), false)
 			return
 		}
-		if x.checkRound(recs, !relink) {
+		if x.checkRound(recs, !relink && len(rs.During) == 0) {
 			nontrivial = true
 		}
 	}
@@ -1232,12 +1312,13 @@ func runC28(r *vf.Run, env *g9mesh.Env, pool []*keys.Identity, c *c28cfg, jr *jo
 func TestC28(t *testing.T) {
 	r := vf.Start(t, "C28", vf.Exploration)
 	defer r.Finish()
-	r.SetRule("configuration = (connected graph: all 9 connected graphs on 2-4 nodes, line/star/ring/complete/PRNG graphs on 5-6 nodes; PRNG node relabelling) x (PRNG subscriber subsets on 1-2 channels, 1-2 handlers, sometimes 2 subscriptions per node/channel) x (PRNG order of Execute start / AddSubscription / AddPeerStream events with quiescence barriers; optionally a second round of late subscriptions and links) x (1-5 publishes per round from PRNG origins, via the subscription or FloodSub.Publish, sequential or concurrent); plus burst configurations (dense graphs, 40+ concurrent publishes), stream-replacement configurations (the stream of an existing (peer, link) tuple is replaced during a burst), delay configurations (mostly cyclic graphs; PRNG directions of edges - preferably out of the publishing nodes - hold back their copies (reads held) or stall until the rest of the mesh is exactly quiescent, then are opened one by one) and back-pressure configurations (trees / small cyclic graphs; the streams on one direction of an edge, on all edges into a victim node or on a PRNG set of directions stop draining (writes block) while 40-200 messages are published sequentially or concurrently from one or from PRNG origins; released when a router is parked on a full send queue or everything is exactly quiescent), multigraph configurations (small graphs on 3-5 nodes in which 1-2 PRNG links, or every link, are doubled or tripled: parallel streams with different link ids between the same pair of nodes, either side initiating, established together with or a round after the first link, sometimes one of the parallel links slow (reads held); publishers are PRNG nodes, so neighbours forward third-party messages over parallel links; the wire rules are evaluated per PEER over all of its links) and stalled-replacement configurations (the stream of edge 0's (peer, link) tuple is replaced on both ends while the old stream is stalled with 1-3 publishes stuck in its write, exact quiescence = replacement sessions started, then the old stream drains or is closed so that the old sessions exit late; then one publish from every node must be delivered exactly). Every subscription / direct publish signs with the node's link identity or with a foreign identity (key mode node / foreign / mixed per configuration). Half of the run has a scheduler yield installed at floodsub.seen.gap. Non-trivial = at least one message was observed exactly once at a handler on a node other than its origin and every demanded delivery was present at exact quiescence (pipes empty, readers parked, all floodsub goroutines of the mesh parked at their idle selects). Oracle = refFloodReach reference model: exactly-once per handler on reachable subscribers, zero elsewhere, no copy on an edge into the origin, every forwarded copy preceded (tap clock) by a reception from another peer.")
+	r.SetRule("configuration = (connected graph: all 9 connected graphs on 2-4 nodes, line/star/ring/complete/PRNG graphs on 5-6 nodes; PRNG node relabelling) x (PRNG subscriber subsets on 1-2 channels, 1-2 handlers, sometimes 2 subscriptions per node/channel) x (PRNG order of Execute start / AddSubscription / AddPeerStream events with quiescence barriers; optionally a second round of late subscriptions and links) x (1-5 publishes per round from PRNG origins, via the subscription or FloodSub.Publish, sequential or concurrent); plus burst configurations (dense graphs, 40+ concurrent publishes), stream-replacement configurations (the stream of an existing (peer, link) tuple is replaced during a burst), delay configurations (mostly cyclic graphs; PRNG directions of edges - preferably out of the publishing nodes - hold back their copies (reads held) or stall until the rest of the mesh is exactly quiescent, then are opened one by one) and back-pressure configurations (trees / small cyclic graphs; the streams on one direction of an edge, on all edges into a victim node or on a PRNG set of directions stop draining (writes block) while 40-200 messages are published sequentially or concurrently from one or from PRNG origins; released when a router is parked on a full send queue or everything is exactly quiescent), multigraph configurations (small graphs on 3-5 nodes in which 1-2 PRNG links, or every link, are doubled or tripled: parallel streams with different link ids between the same pair of nodes, either side initiating, established together with or a round after the first link, sometimes one of the parallel links slow (reads held); publishers are PRNG nodes, so neighbours forward third-party messages over parallel links; the wire rules are evaluated per PEER over all of its links) and stalled-replacement configurations (the stream of edge 0's (peer, link) tuple is replaced on both ends while the old stream is stalled with 1-3 publishes stuck in its write, exact quiescence = replacement sessions started, then the old stream drains or is closed so that the old sessions exit late; then one publish from every node must be delivered exactly), link-churn configurations (small graphs on 2-4 nodes; the link of an edge - mostly the same edge again - is torn down (stream closed in both directions, sessions end) and re-established 1-3 times under a NEW link id, sometimes the old one: break-before-make with or without exact quiescence or publishes on the reduced graph in between, make-before-break (new link next to the old one, then the old one is lost), or either of them from a second goroutine while 12-24 publishes are in flight; after every step views and exact delivery of 2-5 publishes are judged and finally 30-44 publishes, mostly from the ends of the churned edges, must each be delivered exactly once) and subscription-lifecycle configurations (1-2 nodes - publishers, relays, leaves - release their last subscription to the channel, the mesh becomes exactly quiescent so that the unsubscribe was announced, publishes are judged with the node unsubscribed, then the node subscribes to the SAME channel again, 1-3 cycles, also with only a barrier or nothing in between; neighbour views and exact delivery judged after every step; sometimes a second channel stays subscribed throughout). Every subscription / direct publish signs with the node's link identity or with a foreign identity (key mode node / foreign / mixed per configuration). Half of the run has a scheduler yield installed at floodsub.seen.gap. Non-trivial = at least one message was observed exactly once at a handler on a node other than its origin and every demanded delivery was present at exact quiescence (pipes empty, readers parked, all floodsub goroutines of the mesh parked at their idle selects). Oracle = refFloodReach reference model: exactly-once per handler on reachable subscribers, zero elsewhere, no copy on an edge into the origin, every forwarded copy preceded (tap clock) by a reception from another peer.")
 	r.Assume("reachable = reachable through peers subscribed to the channel (DESIGN 8)")
 	r.Assume("the original publisher of a message is the peer whose key signed it (from_peer_id). Subscriptions / publishes use the node's link identity or a foreign key (an identity that is not the link identity of any node of the mesh). With the node key, no copy may appear on any edge into the publishing node. With a foreign key the original publisher is not a peer anybody holds a link to, so copies on edges into the publishing node are only counted; exactly-once hand-over to every local subscription (including those of the publishing node), delivery to every reachable subscriber and the previous-hop rule for every forwarding node are demanded unchanged. Publishing with the link identity of ANOTHER node of the mesh is not exercised")
 	r.Assume("closed gates (held reads = a slow link, stalled writes = a stream that does not drain) are opened when the mesh rests against them, decided from goroutine states (exact quiescence with all publish calls returned, or a router parked on a full per-peer send queue), never from elapsed time; once all gates are open and the mesh is exactly quiescent delivery must be exact")
 	r.Assume("never sends a message back to the peer it received it from is about PEERS: with parallel links a copy to the previous hop over any of its links is an echo; a neighbour legitimately receives one copy per parallel link (de-duplicated by the receiver)")
-	r.Assume("publishes raced with a stream replacement need not be delivered (only no duplicate / echo / crash); after re-quiescence delivery is exact again")
+	r.Assume("publishes raced with a stream replacement or with the loss / re-establishment of a link need not be delivered (only no duplicate / echo / crash); after re-quiescence delivery is exact again")
+	r.Assume("a link whose stream was closed in both directions and whose sessions have ended on both ends is not a link any more: reachability is judged on the links that are up")
 	env, err := getEnv()
 	if err != nil {
 		t.Fatalf("env: %v", err)
@@ -1254,6 +1335,9 @@ func TestC28(t *testing.T) {
 	stallHi := r.N(160, 200)
 	nMulti := r.N(32, 500)
 	nRelinkStall := r.N(16, 200)
+	nChurn := r.N(32, 500)
+	churnFinal := r.N(30, 40)
+	nLife := r.N(32, 500)
 	var phases [2][]*c28cfg
 	idx := 0
 	for ph := 0; ph < 2; ph++ {
@@ -1283,6 +1367,14 @@ func TestC28(t *testing.T) {
 		}
 		for i := 0; i < nRelinkStall/2; i++ {
 			phases[ph] = append(phases[ph], genC28RelinkStall(rng, idx, ph == 1))
+			idx++
+		}
+		for i := 0; i < nChurn/2; i++ {
+			phases[ph] = append(phases[ph], genC28Churn(rng, idx, ph == 1, churnFinal))
+			idx++
+		}
+		for i := 0; i < nLife/2; i++ {
+			phases[ph] = append(phases[ph], genC28Life(rng, idx, ph == 1))
 			idx++
 		}
 	}
